@@ -201,22 +201,22 @@ def gitignored_paths(folder_io, file_io):
 
 def expand_relative_ignore_paths(folder_io, relative_paths):
     curr_path = folder_io.path
-    return {os.path.join(curr_path, p[1]) for p in relative_paths if curr_path.startswith(p[0])}
+    return {
+        os.path.join(curr_path, p[1]) for p in relative_paths
+        if curr_path == p[0] or curr_path.startswith(p[0].rstrip(os.path.sep) + os.path.sep)
+    }
 
 
 def recurse_find_python_folders_and_files(folder_io, except_paths=()):
-    except_paths = set(except_paths)
+    # Paths of files are pathlib.Path objects, paths of folders and of
+    # .gitignore entries are strings; compare everything as strings.
+    except_paths = set(str(p) for p in except_paths)
     except_paths_relative = set()
 
     for root_folder_io, folder_ios, file_ios in folder_io.walk():
-        # Delete folders that we don't want to iterate over.
+        # Read .gitignore first, its entries also apply to the files next to it.
         for file_io in file_ios:
-            path = file_io.path
-            if path.suffix in ('.py', '.pyi'):
-                if path not in except_paths:
-                    yield None, file_io
-
-            if path.name == '.gitignore':
+            if file_io.path.name == '.gitignore':
                 ignored_paths_abs, ignored_paths_rel = gitignored_paths(
                     root_folder_io, file_io
                 )
@@ -227,6 +227,14 @@ def recurse_find_python_folders_and_files(folder_io, except_paths=()):
             root_folder_io, except_paths_relative
         )
 
+        for file_io in file_ios:
+            path = file_io.path
+            if path.suffix in ('.py', '.pyi'):
+                if str(path) not in except_paths \
+                        and str(path) not in except_paths_relative_expanded:
+                    yield None, file_io
+
+        # Delete folders that we don't want to iterate over.
         folder_ios[:] = [
             folder_io
             for folder_io in folder_ios
